@@ -35,7 +35,7 @@ def make_labels(rng, style, n_in, n_g):
     if style == 'odd':
         # any str is a label for the in-memory API: falsy / blank / look-alike / punctuation / non-ASCII ones included
         pool = ['', ' ', '0', '1', 'None', 'False', 'True', '\t', 'a b', '#', '=', '(', ')', ',', '-1', 'é', '\ufeff', 'x0', 'g0',
-                '0.0', '\n']
+                '0.0', '\n', 'INPUT', 'OUTPUT', 'AND', 'NOT', 'XOR', 'BUFF', 'ALWAYS_TRUE', ' x1', 'g1 ', 'x2\t']
         rng.shuffle(pool)
         for i in range(n_in + n_g):
             l = fresh(pool[i]) if i < len(pool) and rng.random() < 0.6 else fresh(('x%d' if i < n_in else 'g%d') % i)
